@@ -84,8 +84,9 @@ func (i IntegratedRunner) Run(cmd string, stream iostream.IOStream, task string,
 
 	// os.Environ() is added to env so that if nothing is passed, the
 	// process environment is used, but if we do pass env vars these
-	// are added as well as all the normal process env vars
-	env = append(env, os.Environ()...)
+	// are added as well as all the normal process env vars. The passed
+	// vars go last because the last duplicate of a name is the one that wins
+	env = append(os.Environ(), env...)
 
 	var result Result
 	result.Cmd = cmd
